@@ -50,9 +50,15 @@ type vecCase struct {
 	Arg  *cz.Value       `json:"arg"`
 	Exp  outcome         `json:"exp"`
 	Mod  outcome         `json:"mod"`
-	Sub  [][]string      `json:"sub"`
+	Sub  []subNode       `json:"sub"`
 	Emb  string          `json:"emb,omitempty"` // replay: restrict to one embedding
 	Raw  json.RawMessage `json:"-"`
+}
+
+// subNode: declared outcome of one element below a container argument (SchemaDecl!Sub).
+type subNode struct {
+	OK   string    `json:"ok"`
+	Kids []subNode `json:"kids"`
 }
 
 type mismatch struct {
@@ -290,8 +296,9 @@ func embeddingsFor(c *vecCase) []*cz.Embedding {
 	return cz.Embeddings
 }
 
-// locate finds the innermost (schema, value) at which the divergence already shows, using
-// the real code (panics) or the declared outcomes of the direct children (accept/reject).
+// locate finds the innermost (schema, value) at which the divergence already shows: by running
+// the real code on the elements (panics), or by comparing what the real code does with an
+// element with the declared outcome of that element (accept / reject).
 func locate(c *vecCase, b *cz.Built, e *cz.Embedding, div string) (kind, class string) {
 	cls := func(v *cz.Value) string {
 		if div == "panic" {
@@ -300,45 +307,43 @@ func locate(c *vecCase, b *cz.Built, e *cz.Embedding, div string) (kind, class s
 		return v.Class()
 	}
 	kind, class = c.S.Kind, cls(c.Arg)
-	s, a := c.S, c.Arg
-	for depth := 0; depth < 6; depth++ {
+	s, a, sub := c.S, c.Arg, c.Sub
+	for depth := 0; depth < 8; depth++ {
 		type child struct {
-			s   *cz.Schema
-			v   *cz.Value
-			exp string
+			s *cz.Schema
+			v *cz.Value
 		}
 		var kids []child
-		subOK := depth == 0 && len(c.Sub) > 0
 		switch {
 		case s.Kind == "list" && a.K == "list":
-			for i, x := range a.List {
-				ch := child{s: s.Items, v: x}
-				if subOK && i < len(c.Sub) && len(c.Sub[i]) >= 1 {
-					ch.exp = c.Sub[i][0]
-				}
-				kids = append(kids, ch)
+			for _, x := range a.List {
+				kids = append(kids, child{s.Items, x})
 			}
 		case s.Kind == "any" && a.K == "list":
 			for _, x := range a.List {
-				kids = append(kids, child{s: s, v: x})
+				kids = append(kids, child{s, x})
 			}
 		case s.Kind == "any" && a.K == "map":
 			for _, p := range a.Pairs {
-				kids = append(kids, child{s: s, v: p[0]}, child{s: s, v: p[1]})
+				kids = append(kids, child{s, p[0]}, child{s, p[1]})
 			}
 		case s.Kind == "map" && a.K == "map":
-			for i, p := range a.Pairs {
-				k, w := child{s: s.Keys, v: p[0]}, child{s: s.Vals, v: p[1]}
-				if subOK && i < len(c.Sub) && len(c.Sub[i]) >= 2 {
-					k.exp, w.exp = c.Sub[i][0], c.Sub[i][1]
-				}
-				kids = append(kids, k, w)
+			for _, p := range a.Pairs {
+				kids = append(kids, child{s.Keys, p[0]}, child{s.Vals, p[1]})
 			}
 		default:
 			return kind, class
 		}
 		found := false
-		for _, ch := range kids {
+		for i, ch := range kids {
+			exp := ""
+			var below []subNode
+			if i < len(sub) {
+				exp, below = sub[i].OK, sub[i].Kids
+			}
+			if div != "panic" && exp == "" {
+				continue
+			}
 			cb, err := cz.Build(ch.s, e)
 			if err != nil {
 				continue
@@ -358,18 +363,18 @@ func locate(c *vecCase, b *cz.Built, e *cz.Embedding, div string) (kind, class s
 				}
 				hit = o.Panic != nil
 			case "accepts":
-				hit = o.Panic == nil && o.Err == nil && ch.exp == "no"
+				hit = o.Panic == nil && o.Err == nil && exp == "no"
 			case "rejects":
-				hit = o.Panic == nil && o.Err != nil && ch.exp == "yes"
+				hit = o.Panic == nil && o.Err != nil && exp == "yes"
 			}
 			if hit {
 				kind, class = ch.s.Kind, cls(ch.v)
-				s, a = ch.s, ch.v
+				s, a, sub = ch.s, ch.v, below
 				found = true
 				break
 			}
 		}
-		if !found || div != "panic" {
+		if !found {
 			return kind, class
 		}
 	}
@@ -604,6 +609,8 @@ func handle(raw json.RawMessage) any {
 		return runDeep(raw)
 	case "rand":
 		return runRand(raw)
+	case "direct":
+		return runDirect(raw)
 	}
 	return map[string]any{"harness_error": "unknown case family " + head.Fam}
 }
